@@ -449,7 +449,9 @@ class AirTouchSocket(Generic[comms.Hdr]):
             return
 
         try:
-            while self._message_queue:
+            # The connection may have been reset by another task while a write
+            # was suspended, so check it again for every message.
+            while self.is_connected and self._message_queue:
                 entry = self._message_queue.popleft()
 
                 if self._loop.time() < entry.expiry:
